@@ -130,6 +130,9 @@ type Case struct {
 	// harness declares so through the model API (SetSatisfiesTriangleInequality(true) — no JSON equivalent): the engine then
 	// skips the latest-start / latest-end exact checks
 	ClaimMetric bool `json:"claim_metric,omitempty"`
+	// Grid: the stops' coordinates lie on a grid (travel comes from the matrices; the coordinates matter for the
+	// closest-stops lists of the un-plan operator only)
+	Grid bool `json:"grid,omitempty"`
 	// DGScript: the members of a duration group (each waits for its window behind the one before it) and a stop that must
 	// start soon after the last member is done; planned in this order at the start of a histw history
 	DGScript []int `json:"dg_script,omitempty"`
@@ -176,6 +179,7 @@ type Profile struct {
 	ForceDurGroups                                                                  bool // a duration group with a long duration whose members wait for a late window
 	InitialUnordered                                                                bool // an unordered multi-stop unit as initial stops, not in index order, interleaved
 	FixedMiddle                                                                     bool // a fixed initial stop that ends up between two removable stops (see Case.FixedMid)
+	MinStopCount                                                                    int  // at least this many stops
 }
 
 func fullProfile(maxStops, maxVeh int) Profile {
@@ -229,6 +233,9 @@ func genCase(rng *rand.Rand, p Profile) *Case {
 	c := &Case{}
 	on := func(enabled bool, oneIn int) bool { return enabled && rng.Intn(oneIn) == 0 }
 	n := 2 + rng.Intn(p.MaxStops-1)
+	if n < p.MinStopCount {
+		n = p.MinStopCount
+	}
 	nv := 1 + rng.Intn(p.MaxVehicles)
 	resources := []string{"default"}
 	if on(p.Capacity, 3) || p.MultiRes {
@@ -1239,6 +1246,10 @@ func tstr(t int64) string { return time.Unix(t, 0).UTC().Format(time.RFC3339) }
 
 func (c *Case) stopJSON(s CStop, idx int, alt bool) map[string]any {
 	m := map[string]any{"id": s.ID, "location": map[string]any{"lon": 4.0 + float64(idx)*0.01, "lat": 52.0}}
+	if c.Grid {
+		// stops on a grid: many stops share a longitude or a latitude and many are equally far from each other
+		m["location"] = map[string]any{"lon": 4.0 + float64(idx%8)*0.0025, "lat": 52.0 + float64(idx/8)*0.0025}
+	}
 	if s.Duration != 0 || idx%2 == 0 {
 		m["duration"] = s.Duration
 	}
